@@ -348,6 +348,15 @@ def _limits():
     resource.setrlimit(resource.RLIMIT_CORE, (0, 0))
 
 
+def _limits_impl():
+    """the code under test: a runaway recursion must end as a crash of that scenario, not eat the machine's memory"""
+    try:
+        resource.setrlimit(resource.RLIMIT_STACK, (512 * 1024 * 1024, 512 * 1024 * 1024))
+    except Exception:
+        pass
+    resource.setrlimit(resource.RLIMIT_CORE, (0, 0))
+
+
 SAN_ENV = {"ASAN_OPTIONS": "detect_leaks=0:abort_on_error=0:allocator_may_return_null=1:detect_stack_use_after_return=0",
            "UBSAN_OPTIONS": "print_stacktrace=1:halt_on_error=1",
            "TSAN_OPTIONS": "halt_on_error=1:report_signal_unsafe=0:second_deadlock_stack=1"}
@@ -401,7 +410,7 @@ def run_impl(exe, lines, per_timeout=20.0, args=(), env_extra=None, max_restarts
         try:
             p = subprocess.run([exe] + list(args), input="\n".join(chunk) + "\n", stdout=subprocess.PIPE,
                                stderr=subprocess.PIPE, text=True, errors="replace", timeout=budget, env=env,
-                               preexec_fn=_limits)
+                               preexec_fn=_limits_impl)
             out, err, rc, hung = p.stdout, p.stderr, p.returncode, False
         except subprocess.TimeoutExpired as e:
             out = (e.stdout or b"").decode(errors="replace") if isinstance(e.stdout, bytes) else (e.stdout or "")
